@@ -182,7 +182,7 @@ pub fn run(ws: &[&str]) -> String {
         ($ty:ident) => {{
             // in half of the cases every setter is first called with a value that is then
             // superseded: the last call must win (rotated secret, changed auth type / redirect)
-            let twice = (id.len() + urlorig.len()) % 2 == 0;
+            let twice = ws.iter().flat_map(|w| w.bytes()).fold(0xcbf29ce484222325u64, |h, b| (h ^ b as u64).wrapping_mul(0x100000001b3)) >> 19 & 1 == 0;
             let mut c = $ty::new(ClientId::new(id.clone()));
             if twice {
                 c = c.set_auth_type(match auth { AuthType::BasicAuth => AuthType::RequestBody, _ => AuthType::BasicAuth });
